@@ -5,7 +5,7 @@ Import ListNotations.
 From Goat Require Import Model.Client Model.Server Proofs.ClientBase Proofs.ClientInv Proofs.ClientLog Proofs.ClientProps Proofs.ProtocolClient
   Proofs.ServerProofs Proofs.ServerInv Proofs.ServerTrace
   Model.Sys Proofs.SysLog Proofs.SysProofs Proofs.SysFacts Proofs.SysFacts2 Proofs.SysC01 Proofs.SysC01b Proofs.SysC01c Proofs.SysC01d
-  Proofs.SysC02b Proofs.SysC02f Proofs.SysC02n Proofs.SysC01e.
+  Proofs.SysCff Proofs.SysC01e.
 Open Scope Z_scope.
 
 Definition taken_as (c : nat) (r : ures) (l : list cev) : Prop := exists e, In (EvTake c e) l /\ classify e = r.
